@@ -338,6 +338,15 @@ def workload(tier, rng, shard, nshards, work):
                         if plast_ > ilast_ and (ilast_ + plast_) / 2 > data["min"]:
                             maxT = (ilast_ + plast_) / 2
                             REC.cls("C02:override-between-last-interval-and-last-point")
+                    if blanks and minT is None and maxT is None and rng.random() < 0.06:
+                        # a requested end a few ulps inside the last interval (a duration computed another way): refused (C04) - or, if
+                        # written, still a partition of exactly the span the file declares
+                        import math
+
+                        il = max([t["entries"][-1][1] for t in data["tiers"] if t["t"] == "I" and t["entries"]] + [0.0])
+                        if il > 0 and il >= last:
+                            maxT = math.nextafter(il, 0) if rng.random() < 0.5 else il * (1 - 4e-15)
+                            REC.cls("C02:override-ulps-inside-the-last-interval")
                     if k % 7 == 0:
                         fn = os.path.join(str(work), "w%d" % (k % 3))
                         call(tg.save, fn, fmt, blanks, minT, maxT, thr, ("silence", "warning", "silence", "error")[(k // 7) % 4])
